@@ -1,0 +1,8 @@
+//go:build verif && !race
+// +build verif,!race
+
+package gf2p16
+
+func verifNoteAccess(in, out []byte) {
+	verifRecordAccess(in, out)
+}
